@@ -404,6 +404,7 @@ func main() {
 		}
 	}
 
+	nFail := map[string]int{}
 	// 4. the whole decode: predictor x colours x bpc x columns x rows, Flate (all) and LZW (a sample)
 	check := func(filt string, ps parmSet, data []byte, tag string) {
 		var out []byte
@@ -488,7 +489,14 @@ func main() {
 			}
 		}
 		if cls != "" {
-			r.OracleFail(cls, in, detail)
+			// vh keeps only the first 2000 failure records of a run: cap each class so that the
+			// two known classes cannot crowd out a new one
+			nFail[cls]++
+			if nFail[cls] <= 60 {
+				r.OracleFail(cls, in, detail)
+			} else {
+				r.Count("oracle-failure-not-recorded:" + cls)
+			}
 		} else {
 			r.OracleOK()
 		}
